@@ -962,3 +962,37 @@ func runFxRAW(m *model.Model, s *ob.Set) {
 		}
 	}
 }
+
+// ---------------------------------------------------------------- FX-DEF
+
+func init() {
+	Register(&Rule{Name: "FX-DEF", Floor: 10, Run: runFxDef,
+		Doc: "every value-defining operation leaves the receiver's form and sign defined by the call on every normal return (a field no path writes keeps what the previous operation left there — a stale sign on a zero, a stale form after an early exit); pointer equality with an operand counts as defined"})
+}
+
+func runFxDef(m *model.Model, s *ob.Set) {
+	const R = "FX-DEF"
+	e := newRBW(m)
+	for _, n := range []string{"Add", "Sub", "Mul", "Quo", "FMA", "Set", "Copy", "SetInt", "SetInt64", "SetUint64", "SetRat", "SetFloat", "SetFloat64", "SetInf", "Neg", "Abs", "Sqrt", "SetBitsExp", "SetMantExp", "setBits64"} {
+		fn := m.TryLookup("(*Decimal)." + n)
+		if fn == nil {
+			continue
+		}
+		sum := e.sums[fn][0]
+		if sum == nil {
+			continue
+		}
+		var missing []string
+		for _, f := range []int{m.F.Form, m.F.Neg} {
+			if sum.mustDef&(1<<uint(f)) == 0 {
+				missing = append(missing, m.FieldN[f])
+			}
+		}
+		c := "(*Decimal)." + n
+		if len(missing) == 0 {
+			s.Ok(R, c, m.Pos(fn.Pos()), "form and sign are defined on every normal return")
+		} else {
+			s.Bad(R, c, m.Pos(fn.Pos()), fmt.Sprintf("some normal return leaves {%s} of the receiver as the previous operation left it", strings.Join(missing, ",")))
+		}
+	}
+}
